@@ -26,7 +26,9 @@ func VerifC16Parser() {
 	sc2 := &verifScanner{toks: sc.toks, eof: sc.eof}
 	ctx := &verifCtxT{tag: 3}
 
-	st := &stack{state: make([]int, stale, iNITIAL_STACK_SIZE), attrib: make([]Attrib, stale, iNITIAL_STACK_SIZE)}
+	// an earlier deep input may have grown the stack beyond its initial capacity
+	capacity := verifParam("CAP", iNITIAL_STACK_SIZE)
+	st := &stack{state: make([]int, stale, capacity), attrib: make([]Attrib, stale, capacity)}
 	for i := 0; i < stale; i++ {
 		s := verifNondetInt("stalestate")
 		verifAssume(0 <= s && s < numStates)
